@@ -45,6 +45,8 @@ func init() {
 			"(0, 1, header sizes +-1, size-1/size/size+1, 16/32-bit edges, counts whose product with the record size wraps 2^32, 2^32..2^64-1 sizes placed at free addresses above every RAM bank, misaligned values), " +
 			"blind 1/2/4/8-byte boundary writes and bit flips inside the metadata and the GUID table, truncation/extension, lists of 2..~2000 TD-HOB/TempMem sections of 4 KiB..64 MiB each at disjoint low or high addresses (each legal on its own, the sum not), raw random byte strings of 0..4096 bytes, plus a fixed list of directed cases for every arithmetic class the property names; " +
 			"list layouts = otherwise well-formed small images whose TDVF section list / SEV section list / GUID table is re-arranged and salted with 1..22 degenerate members (zero-sized TempMem, TD-HOB or firmware-volume sections at a free address, at address 0, at or inside another section, at the top of the address space, misaligned, with raw data or the extend attribute; zero-length SEV sections of every kind; table entries without payload, unknown or duplicating a looked-up GUID) placed before / just before / after / around the member the analysis singles out (TD-HOB first, in the middle, penultimate or last; secret and CPUID page), plus every ordering of the lists {BFV, TD-HOB[, TempMem], 1..3 empty TempMem} and {BFV, empty TD-HOB[, TempMem | empty TempMem]} over a 4 KiB image; " +
+			"TD-HOB fit = 64 KiB images with 2..341 sections whose TD-HOB declares the exact length of the hand-off list the analysis writes into it (56 + 48 per section and per unaccepted range + 8) -9, -8, -4, -1, +0, +1 bytes for 0..8 unaccepted ranges, plus page-sized ranges the list fills exactly / misses by one record; " +
+			"concurrent = batches of 8 goroutines making 24 calls each in lock step, one entry point per batch (or a mix), each goroutine on its own small well-formed / list-layout / hostile images (new contents in two calls of three, an exact repeat of an earlier image otherwise, every eighth copied into a buffer that is refilled in place) and its own options, judged for panics (recovered per goroutine), fatal runtime errors, non-termination and the summed budgets; " +
 			"launch options = vCPU count (incl. 0, negative), product (incl. unknown), endorsement request ids, machine shapes (incl. unknown), early-accept, arbitrary RAM bank lists. " +
 			"Every case runs through GetFwGUIDToBlockMap, SevData.ExtractFromFirmware, sev.LaunchDigest, sev.UnsignedSnp, the three ovmf.ExtractMaterialGuestPhysicalRegions*, tdx.MRTD in default / legacy / early-accept / custom-bank modes and tdx.UnsignedTDX in a child process under ulimit -v 6 GiB. " +
 			"A call refutes the property when it panics, kills the process, uses more thread CPU than (10 s + 2 s/MiB of image) or allocates more than (256 MiB + 512 bytes per image byte), each multiplied by the number of measurements the call was asked for. " +
@@ -55,6 +57,7 @@ func init() {
 			"images carry at most ~3000 SEV and ~2000 TDVF sections in random cases (one directed case with ~30 000 sections in 1 MiB): the pairwise overlap check is quadratic in the section count, which is related to the image size, and is reported in maxima, not judged beyond the linear budget",
 			"an allocation watchdog inside the worker stops a call once it has allocated 1 GiB more than its budget and reports it the way the runtime reports out-of-memory (so that a defective tree cannot exhaust the machine); a call that stays inside its budget is never stopped",
 			"errors are never judged (the property is about totality, not about which images are accepted); acceptance of well-formed images is only a floor",
+			"'every byte string and every launch option' does not restrict the process in which the analysis runs: earlier calls in the same process (every shard is one process; counters sequence/*) and calls of other goroutines on other images are part of the quantifier, so state the library would keep process-wide (a cache, a pool, a scratch buffer, a lazily built table) is exercised; under concurrency only panics, fatal runtime errors, non-termination and the summed budget of the batch are judged (per-call CPU and allocation cannot be told apart while calls overlap)",
 			"the -race/checkptr replay of the design is not run: the anchored packages contain no unsafe or cgo code and -race binaries cannot run under ulimit -v",
 		},
 		ShardsQuick: 16, ShardsThor: 16, TimeoutS: 900, TimeoutThor: 3600, UlimitVKB: 6 << 20, Run: run,
@@ -637,6 +640,7 @@ func run(c *core.Ctx) {
 	rejected := map[string]int{}
 	largeOK, listOK, listRefused := 0, 0, 0
 	generatorOK := true
+	prevFailed := false
 	ms := []metrics.Sample{{Name: "/gc/heap/allocs:bytes"}}
 
 	// A tree on which a layout case ends the process (a hang stopped by the CPU watchdog, the allocation
@@ -742,6 +746,11 @@ func run(c *core.Ctx) {
 				continue
 			}
 			oc := outcome(err)
+			// what the sequence of calls inside this process looked like (all cases of a shard share the process)
+			if prevFailed && err == nil {
+				c.Count("sequence/result-directly-after-a-failed-call/"+e.name, 1)
+			}
+			prevFailed = err != nil
 			if relevant(cs.muts, e.side) {
 				c.Cell("%s|%s|%s", cellKey, e.name, oc)
 			}
@@ -789,6 +798,10 @@ func run(c *core.Ctx) {
 			c.Sample(map[string]any{"case": i, "gen": gname, "len": len(fw), "sha256": hex.EncodeToString(sum[:8])})
 		}
 		c.End(i)
+	}
+	// the strata appended behind the layout stratum (ext.go)
+	if !runExt(c, ents, layout0, layout0+len(dirL)+nL) {
+		generatorOK = false
 	}
 	for _, e := range ents {
 		c.Floor("accepted-some-valid-image/"+e.name, accepted[e.name] > 0)
